@@ -14,9 +14,15 @@ package main
 //            (one at a time, or all at once from concurrent goroutines)
 //   lost     never (the request context ends: the root must report a timeout)
 //   free     from a goroutine started at send time, racing with the remaining sends
-// Recorded: Reset (data, placement, answer kinds), Plan (targets handed to the root), Send, Answer (emitted when the
-// root's task context starts handling the response), Result (what MetricDataSearch returned).  Nothing is compared
-// here: TLC validates the trace against spec/RootGather.tla (spec/RootGatherTrace.tla).
+// and two scripted overlaps of a handler with what may complete the query (the counterexamples of the deviation
+// CountThenMerge of the model): the answer of one leaf is made slow to decode (its payload carries megabytes of fields
+// the decoder does not know and has to skip: no data, only decode time) and, once a goroutine dump shows its handler
+// inside the payload decode,
+//   overlap=answer    the answers of the other leaves are delivered from their own goroutines
+//   overlap=complete  the last SendRequest returns (the pipeline completes: Complete -> tryClose)
+// Recorded: Reset (data, placement, answer kinds), Plan (targets handed to the root), Send, AnswerBegin / AnswerEnd
+// (the root's task context starts / has finished handling the response), Result (what MetricDataSearch returned).
+// Nothing is compared here: TLC validates the trace against spec/RootGather.tla (spec/RootGatherTrace.tla).
 
 import (
 	"context"
@@ -92,6 +98,10 @@ type rgRun struct {
 	order []int    // late answers: delivery order (indices into the late positions, in send order)
 	conc  bool     // late answers all at once from concurrent goroutines
 	label string
+	// overlap: "" | "answer" | "complete" (see the file comment); big: the leaf with the slow answer (overlap=answer;
+	// with overlap=complete it is the leaf of the last send, whichever the root picks)
+	overlap string
+	big     int
 }
 
 func rgLeafName(i int) string { return fmt.Sprintf("leaf-%d:9000", i+1) }
@@ -112,6 +122,19 @@ type rgEnv struct {
 	byShape   map[string]int
 	evicted   int
 	cancelled int
+	// slow answers: the ballast appended to a payload and what it costs to decode (calibrated at start)
+	ballast   []byte
+	ballastMs float64
+	overlaps  map[string]*rgOverlapStat
+}
+
+// rgOverlapStat: the overlap runs of one kind: how many, in how many the handler of the slow answer was seen inside the
+// payload decode before the other party was released, and in how many the other party then really acted while that
+// handler was still running (window hit = both)
+type rgOverlapStat struct {
+	Runs      int `json:"runs"`
+	SawDecode int `json:"saw_decode"`
+	WindowHit int `json:"window_hit"`
 }
 
 // rgNewTaskManager builds the real task manager of a broker: query.NewTaskManager(pool, registry).  Both parameter
@@ -167,10 +190,18 @@ type rgExec struct {
 	ntargets int
 	allSent  chan struct{}
 	late     []func() // deliveries of the late answers, in send order
+	lateOf   []string // their targets
 	handled  map[string]chan struct{}
-	finished bool // MetricDataSearch returned (the Result event is written)
-	wg       sync.WaitGroup
-	problems []string
+	kindOf   map[*protoCommonV1.TaskResponse]string // kind of a response with ballast (decoded once, when it was built)
+	finished bool                                   // MetricDataSearch returned (the Result event is written)
+	// overlap runs
+	bigTarget  string
+	begun      map[string]bool
+	ended      map[string]bool
+	sawDecode  bool // a goroutine dump showed the handler of bigTarget inside the payload decode
+	overlapped bool // after that, the other party acted while that handler had not returned
+	wg         sync.WaitGroup
+	problems   []string
 }
 
 func (x *rgExec) problem(f string, a ...any) {
@@ -217,14 +248,37 @@ func rgKindOf(resp *protoCommonV1.TaskResponse) string {
 }
 
 func (c *rgTaskCtx) HandleResponse(resp *protoCommonV1.TaskResponse, from string) {
-	c.x.env.emit("Answer", trace.F{"t": from, "kind": rgKindOf(resp)})
+	x := c.x
+	x.mu.Lock()
+	kind, ok := x.kindOf[resp]
+	x.mu.Unlock()
+	if !ok {
+		kind = rgKindOf(resp)
+	}
+	x.env.rec.Locked(func(emit func(string, trace.F)) {
+		emit("AnswerBegin", trace.F{"t": from, "kind": kind})
+		x.env.kinds["AnswerBegin"]++
+		x.mu.Lock()
+		x.begun[from] = true
+		if x.bigTarget != "" && from != x.bigTarget && x.sawDecode && x.begun[x.bigTarget] && !x.ended[x.bigTarget] {
+			x.overlapped = true
+		}
+		x.mu.Unlock()
+	})
 	defer func() {
 		if r := recover(); r != nil {
-			c.x.problem("HandleResponse of %s panicked: %v", from, r)
+			x.problem("HandleResponse of %s panicked: %v", from, r)
 		}
-		c.x.mu.Lock()
-		ch := c.x.handled[from]
-		c.x.mu.Unlock()
+		x.env.rec.Locked(func(emit func(string, trace.F)) {
+			emit("AnswerEnd", trace.F{"t": from})
+			x.env.kinds["AnswerEnd"]++
+			x.mu.Lock()
+			x.ended[from] = true
+			x.mu.Unlock()
+		})
+		x.mu.Lock()
+		ch := x.handled[from]
+		x.mu.Unlock()
 		if ch != nil {
 			close(ch)
 		}
@@ -351,8 +405,128 @@ func (x *rgExec) response(target string, req *protoCommonV1.TaskRequest) (resp *
 	if err != nil {
 		panic(err)
 	}
+	x.mu.Lock()
+	slow := target == x.bigTarget
+	x.mu.Unlock()
+	if slow {
+		// the same answer, slow to decode: fields the decoder does not know follow the message (protobuf: skipped)
+		resp.Payload = payload
+		kind := rgKindOf(resp)
+		payload = append(append(make([]byte, 0, len(payload)+len(x.env.ballast)), payload...), x.env.ballast...)
+		x.mu.Lock()
+		x.kindOf[resp] = kind
+		x.mu.Unlock()
+	}
 	resp.Payload = payload
 	return resp
+}
+
+// rgBallast: n protobuf fields (number 15, varint) no message of lindb declares
+func rgBallast(n int) []byte {
+	b := make([]byte, 0, 2*n)
+	for i := 0; i < n; i++ {
+		b = append(b, 0x78, 0x01)
+	}
+	return b
+}
+
+// calibrate sizes the ballast so that decoding it takes about rgDecode on this machine now (fastest of three
+// measurements; at least 8 MB, at most 256 MB)
+const rgDecode = 400 * time.Millisecond
+
+func (e *rgEnv) calibrate() {
+	probe := rgBallast(4 << 20)
+	best := time.Duration(0)
+	for i := 0; i < 3; i++ {
+		t := time.Now()
+		l := &protoCommonV1.TimeSeriesList{}
+		if err := l.Unmarshal(probe); err != nil {
+			e.sum.Unresolved = append(e.sum.Unresolved, "ballast does not decode: "+err.Error())
+			return
+		}
+		if d := time.Since(t); best == 0 || d < best {
+			best = d
+		}
+	}
+	if best <= 0 {
+		best = time.Microsecond
+	}
+	n := int(float64(len(probe)/2) * float64(rgDecode) / float64(best))
+	if n < 4<<20 {
+		n = 4 << 20
+	}
+	if n > 128<<20 {
+		n = 128 << 20
+	}
+	e.ballast = rgBallast(n)
+	e.ballastMs = float64(best) / float64(time.Millisecond) * float64(n) / float64(len(probe)/2)
+}
+
+// dump: the stacks of all goroutines, one block per goroutine
+func rgDump(buf *[]byte) []string {
+	n := runtime.Stack(*buf, true)
+	for n == len(*buf) && len(*buf) < 64<<20 {
+		*buf = make([]byte, 2*len(*buf))
+		n = runtime.Stack(*buf, true)
+	}
+	return strings.Split(string((*buf)[:n]), "\n\n")
+}
+
+// waitDecode waits until the handler of the slow answer is inside the payload decode: a goroutine that is in the
+// root's context code (package query/context) and, below it, in TimeSeriesList.Unmarshal.  false: the handler
+// returned before it was seen there.
+func (x *rgExec) waitDecode() bool {
+	deadline := time.Now().Add(rgWait)
+	buf := make([]byte, 1<<20)
+	for {
+		for _, g := range rgDump(&buf) {
+			if strings.Contains(g, "TimeSeriesList).Unmarshal") && strings.Contains(g, "/query/context.(*") {
+				x.mu.Lock()
+				x.sawDecode = true
+				x.mu.Unlock()
+				return true
+			}
+		}
+		x.mu.Lock()
+		gone := x.ended[x.bigTarget]
+		x.mu.Unlock()
+		if gone || time.Now().After(deadline) {
+			return false
+		}
+		time.Sleep(50 * time.Microsecond)
+	}
+}
+
+// watchCompletion (overlap=complete) runs from the moment the last SendRequest returns: did the pipeline's completion
+// meet the handler of the slow answer?  Yes if, while that handler has not returned, a goroutine other than a handler
+// is in Complete / tryClose of the context (it waits for the mutex), or the root is already parked in waitResponse,
+// or the query has returned.
+func (x *rgExec) watchCompletion() {
+	deadline := time.Now().Add(rgWait)
+	buf := make([]byte, 1<<20)
+	for {
+		seen := false
+		for _, g := range rgDump(&buf) {
+			if strings.Contains(g, "HandleResponse") {
+				continue
+			}
+			if strings.Contains(g, "baseTaskContext).Complete") || strings.Contains(g, "baseTaskContext).tryClose") ||
+				strings.Contains(g, "MetricContext).waitResponse") {
+				seen = true
+			}
+		}
+		x.mu.Lock()
+		gone := x.ended[x.bigTarget]
+		if !gone && (seen || x.finished) {
+			x.overlapped = true
+		}
+		done := gone || x.overlapped
+		x.mu.Unlock()
+		if done || time.Now().After(deadline) {
+			return
+		}
+		time.Sleep(50 * time.Microsecond)
+	}
 }
 
 // deliver hands a response to the root's task manager and waits until the root's task context has handled it
@@ -393,9 +567,29 @@ func (t *rgTransport) SendRequest(target string, req *protoCommonV1.TaskRequest)
 	if pos <= len(x.run.mode) {
 		mode = x.run.mode[pos-1]
 	}
+	if mode == "hold" {
+		// overlap=complete: this answer is the slow one
+		x.mu.Lock()
+		x.bigTarget = target
+		x.mu.Unlock()
+	}
 	if mode != "lost" {
 		resp := x.response(target, req)
 		switch mode {
+		case "hold":
+			// the answer is being handled (its handler is inside the payload decode) when this send returns
+			x.wg.Add(1)
+			go func() {
+				defer x.wg.Done()
+				x.deliver(target, resp, t.tm)
+			}()
+			if x.waitDecode() {
+				x.wg.Add(1)
+				go func() {
+					defer x.wg.Done()
+					x.watchCompletion()
+				}()
+			}
 		case "inline":
 			x.deliver(target, resp, t.tm)
 		case "free":
@@ -407,6 +601,7 @@ func (t *rgTransport) SendRequest(target string, req *protoCommonV1.TaskRequest)
 		default:
 			x.mu.Lock()
 			x.late = append(x.late, func() { x.deliver(target, resp, t.tm) })
+			x.lateOf = append(x.lateOf, target)
 			x.mu.Unlock()
 		}
 	}
@@ -453,7 +648,11 @@ func (x *rgExec) rootState() string {
 
 func (e *rgEnv) exec(run *rgRun) {
 	e.runs++
-	x := &rgExec{env: e, run: run, ntargets: run.nleaf, allSent: make(chan struct{}), handled: map[string]chan struct{}{}}
+	x := &rgExec{env: e, run: run, ntargets: run.nleaf, allSent: make(chan struct{}), handled: map[string]chan struct{}{},
+		kindOf: map[*protoCommonV1.TaskResponse]string{}, begun: map[string]bool{}, ended: map[string]bool{}}
+	if run.overlap == "answer" {
+		x.bigTarget = rgLeafName(run.big)
+	}
 	// Reset: the data, where it is, what a leaf answers
 	pts := map[string][][]any{}
 	kinds := map[string]string{}
@@ -469,7 +668,7 @@ func (e *rgEnv) exec(run *rgRun) {
 	}
 	e.rec.Reset(trace.F{"ftype": run.data.ftype, "grouped": run.data.grouped, "leaves": leaves, "kinds": kinds, "pts": pts,
 		"start": rgStart / 1000, "end": rgEnd / 1000, "iv": rgIv / 1000,
-		"sched": trace.F{"mode": run.mode, "order": run.order, "conc": run.conc, "label": run.label}})
+		"sched": trace.F{"mode": run.mode, "order": run.order, "conc": run.conc, "label": run.label, "overlap": run.overlap}})
 	e.kinds["Reset"]++
 
 	sqlText := "select f from cpu where time>='" + qTime(rgStart) + "' and time<='" + qTime(rgEnd) + "'"
@@ -513,9 +712,27 @@ func (e *rgEnv) exec(run *rgRun) {
 	// the late answers: only while the root waits for them
 	x.mu.Lock()
 	late := append([]func(){}, x.late...)
+	lateOf := append([]string{}, x.lateOf...)
 	x.mu.Unlock()
 	state := x.rootState()
-	if state == "parked" && len(late) > 0 {
+	if state == "parked" && run.overlap == "answer" {
+		// the slow answer first; the others when its handler is inside the payload decode, each from its own goroutine
+		var wg sync.WaitGroup
+		for i := range late {
+			if lateOf[i] == x.bigTarget {
+				wg.Add(1)
+				go func(f func()) { defer wg.Done(); f() }(late[i])
+			}
+		}
+		x.waitDecode()
+		for i := range late {
+			if lateOf[i] != x.bigTarget {
+				wg.Add(1)
+				go func(f func()) { defer wg.Done(); f() }(late[i])
+			}
+		}
+		wg.Wait()
+	} else if state == "parked" && len(late) > 0 {
 		order := run.order
 		if len(order) != len(late) {
 			order = nil
@@ -555,6 +772,23 @@ func (e *rgEnv) exec(run *rgRun) {
 		<-done
 	}
 	x.wg.Wait()
+	if run.overlap != "" {
+		st := e.overlaps[run.overlap]
+		if st == nil {
+			st = &rgOverlapStat{}
+			e.overlaps[run.overlap] = st
+		}
+		st.Runs++
+		if x.sawDecode {
+			st.SawDecode++
+		}
+		if x.sawDecode && x.overlapped {
+			st.WindowHit++
+		}
+		if e.debug {
+			fmt.Fprintf(os.Stderr, "%s: saw decode %v, overlapped %v\n", run.label, x.sawDecode, x.overlapped)
+		}
+	}
 	for _, p := range x.problems {
 		e.sum.Unresolved = append(e.sum.Unresolved, run.label+": "+p)
 	}
@@ -759,6 +993,7 @@ func queryRootMain(args []string) int {
 	nsets := fs.Int("sets", 2, "data sets")
 	sampled := fs.Int("sampled", 1, "sampled schedules per placement (next to the scripted ones)")
 	all := fs.Bool("all", false, "every inline/late mask x every delivery order instead of the prefix schedules")
+	overlaps := fs.Int("overlaps", 2, "overlap runs per shape (a handler inside the payload decode x another answer / the completion)")
 	debug := fs.Bool("debug", false, "print runs to stderr")
 	_ = fs.Parse(args)
 	time.Local = time.UTC
@@ -774,7 +1009,7 @@ func queryRootMain(args []string) int {
 		defer os.RemoveAll(d)
 	}
 	e := &rgEnv{rec: rec, sum: sum, rng: rand.New(rand.NewSource(*seed)), kinds: map[string]int{}, debug: *debug,
-		byMode: map[string]int{}, byShape: map[string]int{}}
+		byMode: map[string]int{}, byShape: map[string]int{}, overlaps: map[string]*rgOverlapStat{}}
 	e.db = models.Database{Name: "rgdb", Option: &option.DatabaseOption{Intervals: option.Intervals{{Interval: timeutil.Interval(rgIv),
 		Retention: timeutil.Interval(3650 * 24 * 3600 * 1000)}}}}
 	tm, closeFn, err := rgNewTaskManager(filepath.Join(*scratch, "rgpool"))
@@ -847,9 +1082,50 @@ func queryRootMain(args []string) int {
 			}
 		}
 	}
+	// a handler that is still decoding its payload x the other answers / the completion of the pipeline: every leaf
+	// holds data no other leaf holds (one cell per point), so an answer that is not in the result is seen
+	if *overlaps > 0 {
+		e.calibrate()
+	}
+	for r := 0; r < *overlaps && e.ballast != nil; r++ {
+		for _, shape := range []struct {
+			overlap string
+			n       int
+		}{{"answer", 2}, {"answer", 3}, {"complete", 1}, {"complete", 2}} {
+			d := &rgData{ftype: types[(int(*seed)+r+shape.n)%3], grouped: (int(*seed)+r+shape.n)%2 == 0}
+			place := []int{}
+			for i := 0; i < shape.n+1; i++ {
+				p := rgPoint{slot: 1 + i, v: 1 + e.rng.Intn(60)}
+				if d.grouped {
+					p.g = []string{"a", "b"}[e.rng.Intn(2)]
+				}
+				d.pts = append(d.pts, p)
+				place = append(place, i%shape.n)
+			}
+			sc := &rgRun{data: d, nleaf: shape.n, place: place, overlap: shape.overlap, big: e.rng.Intn(shape.n), order: []int{}}
+			for i := 0; i < shape.n; i++ {
+				sc.kinds = append(sc.kinds, "data")
+				switch {
+				case shape.overlap == "answer":
+					sc.mode = append(sc.mode, "late")
+				case i == shape.n-1:
+					sc.mode = append(sc.mode, "hold")
+				default:
+					sc.mode = append(sc.mode, "inline")
+				}
+			}
+			sc.label = fmt.Sprintf("overlap-%s/%dleaves/place%v", shape.overlap, shape.n, place)
+			e.exec(sc)
+			e.byMode[rgModeKey(sc.mode, false)+" overlap="+shape.overlap]++
+			e.byShape[fmt.Sprintf("leaves=%d with-data=%d", shape.n, shape.n)]++
+		}
+	}
 	closeFn()
 	rec.Close()
 	sum.Traces, sum.Events = rec.Counts()
+	sum.Extra["overlaps"] = e.overlaps
+	sum.Extra["ballast_bytes"] = len(e.ballast)
+	sum.Extra["ballast_decode_ms"] = int(e.ballastMs)
 	sum.Extra["events_by_kind"] = e.kinds
 	sum.Extra["runs"] = e.runs
 	sum.Extra["schedules"] = e.byMode
